@@ -345,15 +345,15 @@ Fixpoint nvars (q : query) : nat :=
   | QAlt a b => S (nvars a + nvars b)
   | QTry a h => nvars a + match h with Some h' => nvars h' | None => 0 end
   | QArray q' => S (nvars q')
-  | QReduce s _ i u => S (nvars i + nvars s + S (nvars u))
-  | QForeach s _ i u e => S (nvars i + nvars s + S (nvars u)) + match e with Some e' => nvars e' | None => 0 end
+  | QReduce s p i u => S (nvars i + nvars s + (pat_nvars p + nvars u))
+  | QForeach s p i u e => S (nvars i + nvars s + (pat_nvars p + nvars u)) + match e with Some e' => nvars e' | None => 0 end
   | QLabel _ b => S (nvars b)
   | QBind s _ b => nvars s + S (nvars b)
   | QBinop _ _ _ => 1
   | QDef _ _ _ rest => nvars rest
   | QCallF _ args => match args with [] => 0 | _ => 1 end
   | QBindP s p b => nvars s + pat_nvars p + nvars b
-  | QIndexQ _ _ | QSlice _ _ _ => 1
+  | QIndexQ _ _ | QSlice _ _ _ | QCall1 _ _ => 1
   | QObject es =>
       match es with
       | [] => 0
@@ -456,45 +456,53 @@ Fixpoint compg (q : query) (ce : cenv) (tp : tailpos) (cur pc nv sn : nat) {stru
                     [Iappend arr; Ibacktrack; Ipop; Iload arr], n1, s1)
           end
       | None => None end
-  | QReduce src x init upd =>
+  | QReduce src p init upd =>
+      (* compileReduce: dup; init; store acc; fork; source; PATTERN (compilePattern: a plain $x is one store);
+         load acc; update; store acc; backtrack; pop; load acc *)
       let acc := V nv in
       match compg init ce None cur (S pc) (S nv) sn with
       | Some (ci, n1, s1) =>
           let p1 := pc + 1 + length ci in        (* store acc; fork *)
           match compg src ce None cur (p1 + 2) n1 s1 with
           | Some (cs, n2, s2) =>
-              let p2 := p1 + 2 + length cs in    (* store x; load acc *)
-              match compg upd (add_var ce x (V n2)) None cur (p2 + 2) (S n2) s2 with
+              let p2 := p1 + 2 + length cs in    (* pattern; load acc *)
+              let '(cp, bs, n2') := pcomp p cur n2 in
+              if pat_ok p && names_nodup bs then
+              match compg upd (add_vars ce bs) None cur (p2 + length cp + 1) n2' s2 with
               | Some (cu, n3, s3) =>
-                  let p3 := p2 + 2 + length cu in
+                  let p3 := p2 + length cp + 1 + length cu in
                   Some (Idup :: ci ++ Istore acc :: Ifork (p3 + 2) :: cs ++
-                        Istore (V n2) :: Iload acc :: cu ++ [Istore acc; Ibacktrack; Ipop; Iload acc], n3, s3)
+                        cp ++ Iload acc :: cu ++ [Istore acc; Ibacktrack; Ipop; Iload acc], n3, s3)
               | None => None end
+              else None
           | None => None end
       | None => None end
-  | QForeach src x init upd ext =>
+  | QForeach src p init upd ext =>
       let acc := V nv in
       match compg init ce None cur (S pc) (S nv) sn with
       | Some (ci, n1, s1) =>
           let p1 := pc + 1 + length ci in        (* store acc *)
           match compg src ce None cur (p1 + 1) n1 s1 with
           | Some (cs, n2, s2) =>
-              let p2 := p1 + 1 + length cs in    (* store x; load acc *)
-              match compg upd (add_var ce x (V n2)) None cur (p2 + 2) (S n2) s2 with
+              let p2 := p1 + 1 + length cs in    (* pattern; load acc *)
+              let '(cp, bs, n2') := pcomp p cur n2 in
+              if pat_ok p && names_nodup bs then
+              match compg upd (add_vars ce bs) None cur (p2 + length cp + 1) n2' s2 with
               | Some (cu, n3, s3) =>
-                  let p3 := p2 + 2 + length cu in   (* dup; store acc *)
+                  let p3 := p2 + length cp + 1 + length cu in   (* dup; store acc *)
                   match ext with
                   | Some e =>
-                      match compg e (add_var ce x (V n2)) (tl_fb tp) cur (p3 + 2) n3 s3 with
+                      match compg e (add_vars ce bs) (tl_fb tp) cur (p3 + 2) n3 s3 with
                       | Some (cx, n4, s4) =>
-                          Some (Idup :: ci ++ Istore acc :: cs ++ Istore (V n2) :: Iload acc :: cu ++
+                          Some (Idup :: ci ++ Istore acc :: cs ++ cp ++ Iload acc :: cu ++
                                 Idup :: Istore acc :: cx, n4, s4)
                       | None => None end
                   | None =>
-                      Some (Idup :: ci ++ Istore acc :: cs ++ Istore (V n2) :: Iload acc :: cu ++
+                      Some (Idup :: ci ++ Istore acc :: cs ++ cp ++ Iload acc :: cu ++
                             [Idup; Istore acc], n3, s3)
                   end
               | None => None end
+              else None
           | None => None end
       | None => None end
   | QLabel l body =>
@@ -619,6 +627,14 @@ Fixpoint compg (q : query) (ce : cenv) (tp : tailpos) (cur pc nv sn : nat) {stru
                   Some (Istore v :: Iexpbegin :: ca ++ cb ++ Iexpend :: ct ++ [Ipush VNull; Icall NSlice3], S nv, s3)
               | None => None end
           | None => None end
+      | None => None end
+      else None
+  | QCall1 f a =>
+      (* compileCallInternal([fn, 1, name], [a], internal, -1): store v; argument a; load v; call *)
+      let v := V nv in
+      if Nat.ltb cur sn && ce_lt ce sn then
+      match compg a ce None sn (S pc + 2) 0 (S sn) with
+      | Some (cb, nvc, s1) => Some (Istore v :: arg_code v (S pc) sn cb nvc ++ [Iload v; Icall (NF1 f)], S nv, s1)
       | None => None end
       else None
   | QBindP src p body =>
